@@ -251,7 +251,9 @@ class Violin(object):
             kernel = gaussian_kde(values[selected])
 
             # blend regular spacing and ecdf spacing
-            q = np.linspace(0, 1, npts//2)
+            # (npts - npts//2 quantile points so that x has npts points
+            # when npts is odd)
+            q = np.linspace(0, 1, npts - npts//2)
             err = 1e-6 * np.random.uniform(-1, 1, len(q))
             x = np.concatenate([np.linspace(x0, x1, npts // 2),
                                 sen.quantile(q) + err])
